@@ -949,3 +949,9 @@ mutant('C06', 'angle-ctor-forgets-private-value', UN, "        self.__value = va
 mutant('C05', 'to-membership-inverted', UN, "        if target_unit not in self.__UNITS.keys():", "        if target_unit in self.__UNITS.keys():", 'C05.to', nth=0)
 mutant('C05', 'to-inplace-by-default', UN, "inplace: bool = False", "inplace: bool = True", 'C05.to', nth=0)
 mutant('C06', 'to-inplace-by-default', UN, "inplace: bool = False", "inplace: bool = True", 'C06.conv.to', nth=0)
+multi('C12', 'static-error-memoised', 'mutant', [
+    (RUTIL, "def _compute_static_error(", "@lru_cache(maxsize=None)\ndef _compute_static_error("),
+    (RUTIL, "from gearpy.powertrain import Powertrain", "from functools import lru_cache\nfrom gearpy.powertrain import Powertrain")], 'C12.reset')
+multi('C15', 'static-error-memoised', 'mutant', [
+    (RUTIL, "def _compute_static_error(", "@lru_cache(maxsize=None)\ndef _compute_static_error("),
+    (RUTIL, "from gearpy.powertrain import Powertrain", "from functools import lru_cache\nfrom gearpy.powertrain import Powertrain")], 'C15.pure')
